@@ -101,12 +101,14 @@ pub fn verrow(st: &State, input: &Value) -> Out {
     let a = &st.vers[ai];
     let mut rows = Vec::with_capacity(st.vers.len());
     let mut evals = 0;
+    let mut strict = 0;
     for b in &st.vers {
         let v = nine(a, b);
         evals += v.iter().filter(|x| **x != "na").count() as u64;
+        strict += (v[0] != "na" && v[0] != v[2]) as u64;     // A>B differs from A<B: not a tie
         rows.push(json!(v));
     }
-    Out::new(json!({ "v": rows }), evals, 0)
+    Out::new(json!({ "v": rows }), evals, strict)
 }
 
 pub fn verrow_compare(st: &State, case: &Value, obs: &Value) -> Vec<Mismatch> {
